@@ -13,7 +13,7 @@ Init == ov = EmptyOv /\ tid = 1 /\ l = 1
 Ev0 == Traces[tid][l]
 
 \* JSON value -> spec value
-V(j) == IF j.k = "num" THEN Num(j.n) ELSE IF j.k = "blank" THEN Blank ELSE IF j.k = "err" THEN Err ELSE Other
+V(j) == IF j.k = "num" THEN Num(j.n) ELSE IF j.k = "bool" THEN Bool(j.b) ELSE IF j.k = "blank" THEN Blank ELSE IF j.k = "err" THEN Err ELSE Other
 ToBatch(b) == [i \in 1..Len(b) |-> <<b[i][1], b[i][2]>>]
 SameGrid(g, exp) ==
   /\ Len(g) = Len(exp)
